@@ -261,10 +261,37 @@ def r15_4(ctx):
                 ctx.bad("R15.4", h.module, h.qual, what, f"the clip helper in front of the interpreter changes what a set denotes - lost: {what}", h.node.lineno)
 
 
+def r15_5(ctx):
+    """COPY and MOVE hand their set to Mailbox.copy(), which interprets it again (the management task resolved it for
+    admission only).  Both callers pass the command's own UID marker with it: without it `UID MOVE 5,7:8` re-reads its
+    numbers as sequence numbers - the same on a fresh mailbox, other messages as soon as a UID is missing."""
+    p = ctx.p
+    n = 0
+    for fi in p.functions.values():
+        if fi.module != "client":
+            continue
+        for c in calls_in(fi.node):
+            if call_name(c) != "copy" or not c.args:
+                continue
+            a0 = c.args[0]
+            if not (isinstance(a0, ast.Attribute) and a0.attr == "msg_set" and isinstance(a0.value, ast.Name)):
+                continue
+            n += 1
+            ctx.analysed(fi)
+            cmdv = a0.value.id
+            uid = c.args[2] if len(c.args) > 2 else kwarg(c, "uid_command")
+            if uid is not None and norm(uid) == f"{cmdv}.uid_command":
+                ctx.ok("R15.5", where(fi), f"copy({cmdv}.msg_set, ..., {cmdv}.uid_command): the set is re-read in the command's own number space")
+            else:
+                ctx.bad("R15.5", fi.module, fi.qual, norm(c, 100), f"Mailbox.copy() is given `{cmdv}.msg_set` without `{cmdv}.uid_command` (got `{norm(uid) if uid is not None else 'the default False'}`): the set of a UID command is re-read as sequence numbers - after any expunge `UID MOVE`/`UID COPY` takes other messages than UID FETCH with the same set", c.lineno)
+    ctx.floor("R15.5", n, 2, "callers of Mailbox.copy() with a command's set")
+
+
 def run(ctx):
     ctx.do(r15_1)
     ctx.do(r15_3)
     ctx.do(r15_4)
+    ctx.do(r15_5)
     from . import c05, c06, c10
     ctx.do(c10.r10_4)
     ctx.do(c10.r10_4_units)
